@@ -409,10 +409,14 @@ def _assoc_history(requestor, script, call, reactor_iters, call_first):
     return ok, ev
 
 
+_ITERS = shard("iters", -1)
+
+
 @harness(
     "C27",
     timeout=(600, 1500),
-    shards=[{"requestor": rq, "call": c} for rq in (True, False) for c in range(6)],
+    shards=[{"requestor": rq, "call": c, **it} for rq in (True, False) for c in range(6)
+            for it in tier([{}], [{"iters": 0}, {"iters": 1}, {"iters": 2}])],
     functions=["acse:ACSE.negotiate_association", "acse:ACSE._negotiate_as_acceptor", "acse:ACSE._negotiate_as_requestor",
                "acse:ACSE.negotiate_release", "acse:ACSE.send_abort/send_release/send_accept/send_request/is_aborted/"
                "is_release_requested", "association:Association._run_reactor", "association:Association.release",
@@ -433,6 +437,7 @@ def history_assoc(script: List[int], reactor_iters: int, call_first: bool) -> bo
     pre: len(script) <= K_SCRIPT
     pre: all(0 <= k < 9 for k in script)
     pre: 0 <= reactor_iters <= 2
+    pre: _ITERS < 0 or reactor_iters == _ITERS
     post: _ == True
     """
     requestor = bool(shard("requestor", True))
